@@ -12,9 +12,16 @@ package main
 
 import (
 	"context"
+	"crypto/ecdsa"
+	"crypto/elliptic"
+	crand "crypto/rand"
+	"crypto/tls"
+	"crypto/x509"
+	"crypto/x509/pkix"
 	"encoding/binary"
 	"fmt"
 	"io"
+	"math/big"
 	"math/rand"
 	"net"
 	"os"
@@ -202,6 +209,10 @@ type c11Server struct {
 	stopped bool
 	wg      sync.WaitGroup
 
+	tlsCfg    *tls.Config   // mode "tlsheld": the server speaks TLS ...
+	hsDelay   time.Duration // ... and delays the handshake of every connection but the first by this much (slow dial)
+	naccept   int
+	accepted  chan struct{}     // one token per accepted TCP connection
 	holdFd    int               // mode "down": bound, not listening socket that reserves the port while the server is down (-1: none)
 	srvClosed map[net.Conn]bool // connections the server itself has closed from outside their serve goroutine
 	version   int16             // protocol version of the last request (for the close notification)
@@ -225,7 +236,10 @@ func c11StartServer(mode string, k int, log *c11Log) (*c11Server, error) {
 	if err != nil {
 		return nil, err
 	}
-	s := &c11Server{ln: ln, port: ln.Addr().(*net.TCPAddr).Port, mode: mode, k: k, log: log, conns: map[net.Conn]bool{}, srvClosed: map[net.Conn]bool{}, version: 1, holdFd: -1}
+	s := &c11Server{ln: ln, port: ln.Addr().(*net.TCPAddr).Port, mode: mode, k: k, log: log, conns: map[net.Conn]bool{}, srvClosed: map[net.Conn]bool{}, version: 1, holdFd: -1, accepted: make(chan struct{}, 64)}
+	if mode == "tlsheld" {
+		s.tlsCfg, s.hsDelay = c11ServerTLS(), c11HandshakeDelay
+	}
 	s.wg.Add(1)
 	go s.acceptLoop(ln)
 	return s, nil
@@ -244,12 +258,75 @@ func (s *c11Server) acceptLoop(ln net.Listener) {
 			c.Close()
 			return
 		}
-		s.conns[c] = true
+		idx := s.naccept
+		s.naccept++
+		if s.tlsCfg == nil {
+			s.conns[c] = true
+		}
 		s.mu.Unlock()
 		s.log.add(c11rawEvent{k: "dial", port: c11PortOf(c.RemoteAddr()), id: -1})
+		select {
+		case s.accepted <- struct{}{}:
+		default:
+		}
 		s.wg.Add(1)
-		go s.serve(c)
+		if s.tlsCfg != nil {
+			go s.serveTLS(c, idx)
+		} else {
+			go s.serve(c)
+		}
 	}
+}
+
+// serveTLS completes the (delayed) TLS handshake on an accepted connection and serves it.
+func (s *c11Server) serveTLS(c net.Conn, idx int) {
+	if idx > 0 {
+		time.Sleep(s.hsDelay)
+	}
+	tc := tls.Server(c, s.tlsCfg)
+	c.SetDeadline(time.Now().Add(5 * time.Second))
+	if err := tc.Handshake(); err != nil {
+		c.Close()
+		s.wg.Done()
+		return
+	}
+	c.SetDeadline(time.Time{})
+	s.mu.Lock()
+	if s.stopped {
+		s.mu.Unlock()
+		tc.Close()
+		s.wg.Done()
+		return
+	}
+	s.conns[tc] = true
+	s.mu.Unlock()
+	s.serve(tc)
+}
+
+const c11HandshakeDelay = 120 * time.Millisecond
+
+var (
+	c11TLSOnce sync.Once
+	c11TLSCfg  *tls.Config
+)
+
+// c11ServerTLS returns the TLS configuration of the scripted server (self-signed certificate, generated once).
+func c11ServerTLS() *tls.Config {
+	c11TLSOnce.Do(func() {
+		priv, err := ecdsa.GenerateKey(elliptic.P256(), crand.Reader)
+		if err != nil {
+			fatal("tls key: %v", err)
+		}
+		tmpl := x509.Certificate{SerialNumber: big.NewInt(1), Subject: pkix.Name{CommonName: "localhost"},
+			NotBefore: time.Now().Add(-time.Hour), NotAfter: time.Now().Add(24 * time.Hour),
+			KeyUsage: x509.KeyUsageDigitalSignature, ExtKeyUsage: []x509.ExtKeyUsage{x509.ExtKeyUsageServerAuth}, DNSNames: []string{"localhost"}}
+		der, err := x509.CreateCertificate(crand.Reader, &tmpl, &tmpl, &priv.PublicKey, priv)
+		if err != nil {
+			fatal("tls cert: %v", err)
+		}
+		c11TLSCfg = &tls.Config{Certificates: []tls.Certificate{{Certificate: [][]byte{der}, PrivateKey: priv}}}
+	})
+	return c11TLSCfg
 }
 
 func (s *c11Server) stop() {
@@ -602,7 +679,7 @@ func c11RunScript(c *c11Case) ([]c11Event, string) {
 		c.Seq = 1
 	}
 	k := c.Burst * c.Seq * c11Halves(c)
-	if c.Mode == "held" || c.Mode == "heldq" || c.Mode == "pushcmd" || c.Mode == "down" {
+	if c.Mode == "held" || c.Mode == "heldq" || c.Mode == "pushcmd" || c.Mode == "down" || c.Mode == "tlsheld" {
 		k = -1 // closes / notifies on command only
 	}
 	srv, err := c11StartServer(c.Mode, k, log)
@@ -618,7 +695,12 @@ func c11RunScript(c *c11Case) ([]c11Event, string) {
 		comm.Client = &cfg
 	}
 	prx := &c11Prx{}
-	comm.StringToProxy(fmt.Sprintf("C11.Obj.P%d@tcp -h 127.0.0.1 -p %d -t 60000", srv.port, srv.port), prx)
+	proto := "tcp"
+	if c.Mode == "tlsheld" {
+		proto = "ssl"
+		tars.VerifSetClientTLS(comm, &tls.Config{InsecureSkipVerify: true})
+	}
+	comm.StringToProxy(fmt.Sprintf("C11.Obj.P%d@%s -h 127.0.0.1 -p %d -t 60000", srv.port, proto, srv.port), prx)
 	sp := prx.s.(*tars.ServantProxy)
 	sp.TarsSetTimeout(c11TimeoutMs)
 	c11Logs.Store(srv.port, log)
@@ -639,6 +721,9 @@ func c11RunScript(c *c11Case) ([]c11Event, string) {
 	}
 	if c.Mode == "down" {
 		return c11RunDown(c, srv, sp, log)
+	}
+	if c.Mode == "tlsheld" {
+		return c11RunTLS(c, srv, sp, log), ""
 	}
 	callNo := 0
 	for round := 0; round <= c.Rounds; round++ {
@@ -931,6 +1016,107 @@ func c11RunDown(c *c11Case, srv *c11Server, sp *tars.ServantProxy, log *c11Log) 
 	return c11Canon(log), ""
 }
 
+// c11RunTLS is the script for two reports of the loss of one connection around a SLOW re-dial (TLS endpoint, the
+// server delays the handshake): the send goroutine of connection A is held in the write hook with call X; the server
+// closes A and the receive goroutine reports the loss (first close, client marked closed); call Y is issued, its
+// ReConnect dials under the connection lock; as soon as the server has accepted the new TCP connection (the dial is
+// in progress, the handshake still delayed) the held goroutine is released: its write fails and it reports the loss
+// of A a second time, inside the dial window. Afterwards there must be exactly one new connection, not flagged
+// closed, and X, Y and Burst further calls must be fast and arrive exactly once.
+func c11RunTLS(c *c11Case, srv *c11Server, sp *tars.ServantProxy, log *c11Log) []c11Event {
+	callNo := 0
+	c11OneCall(sp, log, callNo)
+	callNo++
+	for round := 0; round < c.Rounds; round++ {
+		for len(srv.accepted) > 0 {
+			<-srv.accepted
+		}
+		x := callNo
+		callNo++
+		log.mu.Lock()
+		log.holdID = x
+		log.mu.Unlock()
+		var released time.Time
+		var relMu sync.Mutex
+		doneX := make(chan struct{})
+		go func() {
+			defer close(doneX)
+			log.add(c11rawEvent{k: "enq", id: x})
+			t0 := time.Now()
+			err := c11Call(sp, x)
+			relMu.Lock()
+			if released.After(t0) {
+				t0 = released
+			}
+			relMu.Unlock()
+			ms := int(time.Since(t0) / time.Millisecond)
+			if err != nil {
+				log.add(c11rawEvent{k: "fail", id: x, ms: ms})
+			} else {
+				log.add(c11rawEvent{k: "reply", id: x, ms: ms})
+			}
+		}()
+		select {
+		case <-log.held:
+		case <-time.After(4 * time.Second):
+			<-doneX
+			return c11Canon(log)
+		}
+		release := func() {
+			relMu.Lock()
+			released = time.Now()
+			relMu.Unlock()
+			log.release <- struct{}{}
+		}
+		tcs := tars.VerifC11Clients(sp)
+		if len(tcs) == 0 {
+			release()
+			<-doneX
+			return c11Canon(log)
+		}
+		srv.closeConns()
+		observed := false
+		for deadline := time.Now().Add(4 * time.Second); time.Now().Before(deadline); time.Sleep(200 * time.Microsecond) {
+			if closed, conn := transport.VerifC11Conn(tcs[0]); closed && conn != nil {
+				observed = true
+				log.add(c11rawEvent{k: "obs", id: -1, port: c11PortOf(conn.LocalAddr())})
+				break
+			}
+		}
+		if !observed {
+			release()
+			<-doneX
+			return c11Canon(log)
+		}
+		y := callNo
+		callNo++
+		doneY := make(chan struct{})
+		go func() {
+			defer close(doneY)
+			c11OneCall(sp, log, y)
+		}()
+		select {
+		case <-srv.accepted: // the re-dial is in progress: TCP accepted, handshake delayed
+			time.Sleep(c11HandshakeDelay / 6)
+		case <-time.After(4 * time.Second):
+		}
+		release()
+		<-doneX
+		<-doneY
+		if now := tars.VerifC11Clients(sp); len(now) > 0 {
+			if closed, conn := transport.VerifC11Conn(now[0]); conn != nil {
+				log.add(c11rawEvent{k: "cflag", id: -1, port: c11PortOf(conn.LocalAddr()), dead: closed})
+			}
+		}
+		for b := 0; b < c.Burst; b++ {
+			c11OneCall(sp, log, callNo)
+			callNo++
+		}
+	}
+	time.Sleep(5 * time.Millisecond)
+	return c11Canon(log)
+}
+
 // c11Canon turns the raw log into the canonical trace: generations are numbered in accept order, a dial event
 // is placed before the first event that mentions the generation, ports and timestamps are dropped.
 func c11Canon(l *c11Log) []c11Event {
@@ -999,6 +1185,9 @@ func c11Monitor(c *c11Case, evs []c11Event) map[string]string {
 	}
 	if c.Mode == "down" {
 		per, total = 0, 1+c.Rounds*(c.Seq+c.Burst)
+	}
+	if c.Mode == "tlsheld" {
+		per, total = 0, 1+c.Rounds*(2+c.Burst)
 	}
 	down := map[int]bool{} // calls issued while the server was down: not judged
 	failed := map[int]bool{}
@@ -1123,6 +1312,8 @@ func c11Run(c *c11Case) []Failure {
 				what = fmt.Sprintf("send goroutine held right after it has taken a request (before its current-connection test), server closes the connection, %d further call(s) %d us after the observed close, then the goroutine is released", c.Burst, c.DelayUs)
 			} else if c.Mode == "held" {
 				what = fmt.Sprintf("send goroutine held just before its write, server closes the connection, %d further call(s) %d us after the observed close, then the goroutine is released", c.Burst, c.DelayUs)
+			} else if c.Mode == "tlsheld" {
+				what = fmt.Sprintf("TLS endpoint with a %v handshake delay; send goroutine held before its write, server closes the connection (receiver reports the loss), a call re-dials, the held goroutine is released while the dial is in progress (its failed write reports the loss a second time), then %d further call(s)", c11HandshakeDelay, c.Burst)
 			} else if c.Mode == "down" {
 				what = fmt.Sprintf("server closes the connection and stops listening, %d call(s) while it is down (client send queue length %d, 0 = default), server listens again, %d call(s) %d us later", c.Seq, c.QueueLen, c.Burst, c.DelayUs)
 			} else if c.Mode == "pushcmd" {
@@ -1238,6 +1429,10 @@ func c11Gen(tier string, rng *rand.Rand) []c11Case {
 		// close notification, calls before / around / after the 500 ms grace tick of the swapped-out client
 		offs := []int{rng.Intn(20), 80 + rng.Intn(40), 380 + rng.Intn(50), 570 + rng.Intn(60), 1150 + rng.Intn(100)}
 		cs = append(cs, c11Case{Mode: "pushcmd", Burst: 1, Seq: 1, Rounds: 2, OffsMs: offs, PushClose: r%2 == 1})
+	}
+	for r := 0; r < 2*reps; r++ {
+		// slow re-dial (TLS handshake delay) with the second report of the loss inside the dial window
+		cs = append(cs, c11Case{Mode: "tlsheld", Burst: 1 + r%2, Seq: 1, Rounds: 2 + rng.Intn(2)})
 	}
 	for r := 0; r < 3*reps; r++ {
 		// held after the dequeue: the request must be handed over to the new connection
